@@ -461,7 +461,11 @@ func (c *controlConn) HandleError(conn *Conn, err error, closed bool) {
 		return
 	}
 
-	c.reconnect()
+	// The error is reported on the goroutine that closed the connection, which may be the
+	// ring refresher in the middle of a refresh (a request of its own timed out once too
+	// often, or could not be written): reconnect ends with a ring refresh and would wait
+	// for that very goroutine.
+	go c.reconnect()
 }
 
 func (c *controlConn) getConn() *connHost {
